@@ -300,7 +300,13 @@ def run(ctx):
                        "new_states_per_level": r["new_states_per_level"]}
         samples += [{"mode": mode, "history": h} for h in sample(r["samples"], 3)]
         capped = capped or r["capped"]
-    cov = {"states": tot["states"], "transitions": tot["transitions"],
+    from vf.checks import c10s
+    ctx.close()
+    sres = c10s.run_s(ctx)
+    viols += sres["violations"]
+    tot["states"] += sres["coverage"]["executions"]
+    tot["transitions"] += sres["coverage"]["transitions"]
+    cov = {"states": tot["states"], "transitions": tot["transitions"], "schedules": sres["coverage"],
            "traces_validated_against_impl": tot["transitions"], "parts": parts,
            "distinct_outcomes": len(labels), "outcome_counts": labels, "samples": samples,
            "exhaustive": capped is None, "capped": capped,
@@ -313,6 +319,9 @@ def run(ctx):
 
 def replay(ctx, case):
     global _CFG
+    if case.get("part") == "S":
+        from vf.checks import c10s
+        return c10s.replay_s(ctx, case)
     _CFG = Cfg(ctx.seed, case.get("mode", "both"), ctx.thorough)
     ex = Exec(_CFG)
     trace = []
